@@ -13,6 +13,10 @@ static const Part kParts[] = {
 	{"C05", "archive-damage", 32, 3200},
 	{"C06", "map-stream", 4000, 400000},
 	{"C07", "map-damage", 32, 3200},
+	{"C08", "bmp-stream", 6000, 600000},
+	{"C09", "tileset-stream", 4000, 400000},
+	{"C10", "prt-stream", 4000, 400000},
+	{"C11", "image-damage", 32, 3200},
 	{"C12", "stream-actors", 60000, 3000000},
 	{"C13", "stream-actors", 40000, 2000000},
 	{"C14", "writer-actors", 40000, 2000000},
